@@ -44,7 +44,7 @@ Theorem C15_exactly_one_hook_by_form :
                               = Err (Leaf (KCustom msg) [] (Some es)))
     /\ (forall i p e, default_from_meta F (NNameValue i p e) = ws i (from_expr F e))
     /\ (forall e j l, strip_groups e = ELit j l -> default_from_expr F e = ws j (from_value F j l))
-    /\ (forall e j l, strip_groups e = ENeg j l -> default_from_expr F e = ws j (from_value F j l))
+    /\ (forall e j l, strip_groups e = ENeg j l -> is_numeric l = true -> default_from_expr F e = ws j (from_value F j l))
     /\ (forall i b, default_from_value F i (LBool b) = ws i (from_bool F b))
     /\ (forall i s, default_from_value F i (LStr s) = ws i (from_string F s))
     /\ (forall i c, default_from_value F i (LChar c) = ws i (from_char F c))
